@@ -1,6 +1,7 @@
 package dbft
 
 import (
+	"crypto/rand"
 	"encoding/json"
 	"fmt"
 	"os"
@@ -23,6 +24,8 @@ func TestVerifReplay(t *testing.T) {
 		t.Fatal(err)
 	}
 	vRun = vRunState{vec: &vec}
+	// the proposal nonce (crypto/rand in Context.Fill) comes from the vector too
+	rand.Reader = vNonceReader{}
 	fn := vEntry(vec.Entry)
 	if fn == nil {
 		t.Fatalf("no harness entry %s", vec.Entry)
@@ -43,4 +46,14 @@ func TestVerifReplay(t *testing.T) {
 		"panic": pan, "tagerr": vRun.tagErr, "assume_ko": vRun.assumeKO,
 	})
 	fmt.Printf("REPLAY-RESULT %s\n", out)
+}
+
+type vNonceReader struct{}
+
+func (vNonceReader) Read(b []byte) (int, error) {
+	x := vNext("nonce")
+	for i := range b {
+		b[i] = byte(x >> (8 * uint(i%8)))
+	}
+	return len(b), nil
 }
